@@ -13,7 +13,7 @@
      h_fix  minimal repair: a residue whose predecessor lacks C or O gets H = N (like residue 0) *)
 From Coq Require Import List ZArith Bool Arith.
 Import ListNotations.
-Require Import MD.Gen.HbondTables MD.Hbond.Model.
+Require Import MD.Gen.HbondTables MD.Gen.HbondFormulas MD.Hbond.Model.
 Local Open Scope Z_scope.
 
 (* backbone atom indices of one residue: None = -1 (atom absent) *)
@@ -74,24 +74,40 @@ Section Frame.
   Definition hydrogens (hv : hvariant) (rs : list residue) : list (option vec) :=
     map (hydrogen hv rs) (seq 0 (length rs)).
 
-  (* ks_donor_acceptor: energy in kcal/mol, fixed point; hs = the hcoords array *)
+  (* one term of the energy: coefficient / distance(site, site), fixed point *)
+  Definition ks_term (site : ks_site -> vec) (t : (Z * Z) * (ks_site * ks_site)) : option Z :=
+    match inv_dist (site (fst (snd t))) (site (snd (snd t))) with
+    | Some v => Some (fst (fst t) * v / snd (fst t))
+    | None => None
+    end.
+
+  Fixpoint sum_terms (l : list (option Z)) : option Z :=
+    match l with
+    | [] => Some 0
+    | Some v :: r => match sum_terms r with Some s => Some (v + s) | None => None end
+    | None :: _ => None
+    end.
+
+  (* return (energy < T ? V : energy) *)
+  Definition ks_clamp (e : Z) : Z :=
+    if e <? fst (c_ks_clamp_test K) * SC / snd (c_ks_clamp_test K)
+    then fst (c_ks_clamp_value K) * SC / snd (c_ks_clamp_value K) else e.
+
+  (* ks_donor_acceptor: energy in kcal/mol, fixed point; hs = the hcoords array.  The terms (which pairs
+     of positions, which coefficients) are the ones translated from the source. *)
   Definition ks_energy_h (hs : list (option vec)) (rs : list residue) (donor acceptor : nat) : option Z :=
     let rd := nth donor rs (mkRes None None None None false) in
     let ra := nth acceptor rs (mkRes None None None None false) in
     match nth donor hs None with
     | None => None
     | Some h =>
-      let n := to_fx (at_idx (r_n rd)) in
-      let c := to_fx (at_idx (r_c ra)) in
-      let o := to_fx (at_idx (r_o ra)) in
-      match inv_dist h o, inv_dist n c, inv_dist h c, inv_dist n o with
-      | Some ho, Some nc, Some hc, Some no =>
-        let sgn := fun k => nth k (c_ks_signs K) 0 in
-        let e := fst (c_ks_coupling K) * (sgn 0%nat * ho + sgn 1%nat * nc + sgn 2%nat * hc + sgn 3%nat * no)
-                 / snd (c_ks_coupling K) in
-        let floor := fst (c_ks_floor K) * SC / snd (c_ks_floor K) in
-        Some (if e <? floor then floor else e)
-      | _, _, _, _ => None
+      let site := fun s => match s with
+                           | KS_N => to_fx (at_idx (r_n rd)) | KS_H => h
+                           | KS_C => to_fx (at_idx (r_c ra)) | KS_O => to_fx (at_idx (r_o ra))
+                           end in
+      match sum_terms (map (ks_term site) (c_ks_terms K)) with
+      | Some e => Some (ks_clamp e)
+      | None => None
       end
     end.
 
